@@ -6,6 +6,7 @@ PROP = "C12"
 LEAN_MODULES = ["ShootVerif.Props.C12"]
 USES_FACTS = False
 DRIVER = "shootmodel_enum"
+enumgen.regen_enum_facts()          # lean/ShootVerif/Gen/EnumFacts.lean follows the current source (Props/C04Facts.lean)
 
 MANIFEST = dict(
     text="Lean 4 theorems over the model of the emitted JSON/Text/SQL methods and of shoot.ParseEnum/TryParseEnum/IsEnum on the C04 tables: "
@@ -48,12 +49,13 @@ def make_cases(ctx, cid, en, flags, mode=None):
     main_ints = [("int64", [v for v in ints if -enumgen.MAXI64 - 1 <= v <= enumgen.MAXI64]), ("uint64", [v for v in ints if v > enumgen.MAXI64])]
     main_ints = [(tv, vs) for tv, vs in main_ints if vs]
     tints = enumgen.isenum_matrix(kind, decl)
-    extra = [["flags"] + flags, ["target", str(target)], ["strs"] + [Q(s) for s in strs],
+    rerun = rng.random() < 0.3
+    extra = ([enumgen.generated_sexp(en, decl)] if rerun else []) + [["flags"] + flags, ["target", str(target)], ["strs"] + [Q(s) for s in strs],
              ["jsons"] + [l for _, l in jsons], ["sqls"] + [l for _, l in sqls],
              ["ints"] + [[tv] + [str(v) for v in vs] for tv, vs in main_ints], ["encs"] + [str(v) for v in encs]]
     args = ["enum"] + ["-" + f for f in flags] + lay["sel"]
     main = {"id": cid, "en": en, "decl": decl, "flags": flags, "files": lay["files"], "mode": lay["mode"] + ("+spread" if lay["spread"] and lay["mode"].startswith("file") else ""),
-            "runs": [{"args": args}],
+            "runs": [{"args": args}] * (2 if rerun else 1), "rerun": rerun,
             "oracle": {".": enumgen.oracle_c12(en, decl, flags, target, strs, jsons, sqls, main_ints, encs, tints)},
             "sexp": enumgen.case_sexp(cid, "c12", en, extra), "cmd": "shoot " + " ".join(args), "kind": "main",
             "probes": {"strs": strs, "jsons": [t for t, _ in jsons], "sqls": [e for e, _ in sqls]}}
@@ -90,12 +92,12 @@ def run_cases(ctx, pairs, name="mod"):
     impl = {}
     for main, sub in pairs:
         r = out[main["id"]]
-        rc = r["runs"][0]["rc"]
+        rc = enumgen.last_rc(r["runs"])
         rel, gen = enumgen.generated_file(r["written"])
         im = {"exit": str(rc)}
         sim = {}
         vim = {}
-        main["detail"] = {"stderr": r["runs"][0]["stderr"][-400:], "compile": r["compile"], "generated": rel, "probes": main["probes"]}
+        main["detail"] = {"stderr": r["runs"][-1]["stderr"][-400:], "compile": r["compile"], "generated": rel, "probes": main["probes"]}
         if rc == 0 and not rel:
             im["file"] = "none"
         elif rc == 0:
@@ -128,8 +130,6 @@ def run_cases(ctx, pairs, name="mod"):
 
 
 def sig(c, region, dk, im, m):
-    if region == "F_sql_value_string" and all(k.split(":")[0] in ("sql.rtv", "sql.sdec") for k in dk):
-        return region
     kinds = sorted(set(k.split(":")[0] for k in dk))
     return "%s:%s" % (region, ",".join(kinds))
 
@@ -146,6 +146,7 @@ def run(ctx, obl):
                 res.hist("features", f)
             res.hist("flagset", "+".join(main["flags"]) or "none")
             res.hist("run-mode", main["mode"])
+            res.hist("rerun", str(main["rerun"]))
             res.hist("requested-feature", main["en"].get("feature", "random"))
             res.hist("constants", str(len(main["decl"])))
         core.compare_cases(ctx, res, cases, impl, model, sig=sig,
@@ -170,7 +171,7 @@ def run(ctx, obl):
                 "separate case, IsEnum[T, TV] for all 10 integer types TV on declared values, the integers that wrap onto them in T, their "
                 "reinterpretations in TV and the corners of both types. non-trivial = distinct (enum, flag set) with at least two constants")
     res.assumptions = ["encoding/json string encode/decode are inverse on ASCII identifiers; a JSON document is classified by Python's json module",
-                       "the main case models the SQL text transport as []byte (what lib/pq and go-sql-driver/mysql hand to Scan); the pair through the Go string that Value() itself returns is the separate case <id>v",
+                       "SQL text reaches Scan as []byte (main case) or as the Go string that Value() itself returns (case <id>v); both are asserted",
                        "int and uint are 64 bit wide (kinds `int`/`uint` are 64 bits in the model, amd64/arm64 in the runs); 32-bit platforms, where IsEnum[T, int] probes and int-kinded enums have a 32-bit range, are neither modelled nor exercised"]
     return res
 
